@@ -859,6 +859,9 @@ type genEvent struct {
 	feats     map[string]bool
 }
 
+// fgHostileLevels is set by the C07 worker (the text layout's header is outside C08's no-control-character clause).
+var fgHostileLevels bool
+
 var (
 	fgLevelsOnce bool
 	fgLevels     []log.Level
@@ -869,6 +872,11 @@ func fgAllLevels() []log.Level {
 		fgLevelsOnce = true
 		fgLevels = []log.Level{log.NoneLevel, log.TraceLevel, log.DebugLevel, log.InfoLevel, log.WarnLevel, log.ErrorLevel, log.PanicLevel, log.FatalLevel,
 			log.RegisterLevel(350, "Notice"), log.RegisterLevel(50, "fine"), log.RegisterLevel(1500, "AUDIT_X")}
+		if fgHostileLevels {
+			// user-registered level names are arbitrary strings: the JSON line must stay one valid object whatever they contain
+			fgLevels = append(fgLevels, log.RegisterLevel(1601, "ESC\x1b[0m"), log.RegisterLevel(1602, "nul\x00x"), log.RegisterLevel(1603, "del\x7f"),
+				log.RegisterLevel(1604, "q\"uo\te\\"), log.RegisterLevel(1605, "bad\xffutf"), log.RegisterLevel(1606, "ls\u2028\U000f0001"), log.RegisterLevel(1607, "bel\a\vvt"))
+		}
 	}
 	return fgLevels
 }
